@@ -14,6 +14,7 @@ import (
 
 	"github.com/boz/kcache"
 	"github.com/boz/kcache/filter"
+	"github.com/boz/kcache/nsname"
 	metav1 "k8s.io/apimachinery/pkg/apis/meta/v1"
 
 	"verif/explore"
@@ -28,6 +29,8 @@ type cfg struct {
 	seq      []int // filters: seq[0] initial, then Refilter(seq[1]), Refilter(seq[2])
 	b2b      bool  // the Refilter calls after the first are issued back to back, one barrier at the end
 	grow     bool  // content has no b: b{l=1}@0 is created in the parent between Refilter #1 and Refilter #2
+	nsSlice  int   // 1: the same caller-owned id slice [ns/a, ns/*] is passed to NSName for two Refilter calls; 2: an all-partial slice [ns/*] is reused after being changed to [other/*]
+	flip     bool  // a's label is flipped by a parent update (a@2) between Refilter #1 and Refilter #2
 	stateful bool  // one user filter value (a pointer, no Equals) is passed to every Refilter; its meaning changes in between
 }
 
@@ -123,8 +126,19 @@ func (in *inst) run() {
 		return
 	}
 	sf := &statefulFilter{}
+	ids := []nsname.NSName{nsname.New("ns", "a"), nsname.New("ns", "")}
+	if in.c.nsSlice == 2 {
+		ids = []nsname.NSName{nsname.New("ns", "")}
+	}
 	for i, f := range in.c.seq[1:] {
 		var ff filter.Filter = hx.MkFilter(f)
+		if in.c.nsSlice > 0 {
+			// the caller keeps ONE slice of ids and spreads it into the constructor each time
+			if in.c.nsSlice == 2 && i == 1 {
+				ids[0] = nsname.New("other", "")
+			}
+			ff = filter.NSName(ids...)
+		}
 		if in.c.stateful {
 			sf.as = f
 			ff = sf
@@ -137,9 +151,13 @@ func (in *inst) run() {
 		st.events = append([]string{}, n.Received[seen:]...)
 		seen = len(n.Received)
 		in.steps = append(in.steps, st)
-		if in.c.grow && i == 0 {
+		if (in.c.grow || in.c.flip) && i == 0 {
 			// the parent changes between the two calls (its event is delivered before the next Refilter)
-			root.Publish(kcache.NewEvent(kcache.EventTypeCreate, grown()))
+			if in.c.flip {
+				root.Publish(kcache.NewEvent(kcache.EventTypeUpdate, flipped(in.c.content)))
+			} else {
+				root.Publish(kcache.NewEvent(kcache.EventTypeCreate, grown()))
+			}
 			st := barrier()
 			in.growEvents = append([]string{}, n.Received[seen:]...)
 			in.growList = st.list
@@ -151,10 +169,30 @@ func (in *inst) run() {
 
 func grown() metav1.Object { return hx.Pod("ns", "b", "0", "l=1") }
 
+// flipped: a at version 2 with the other label value (content must contain a).
+func flipped(content int) metav1.Object {
+	l := "l=1"
+	if content%3 == 2 {
+		l = "l=0"
+	}
+	return hx.Pod("ns", "a", "2", l)
+}
+
 func viewG(content, f int, withGrown bool) []metav1.Object {
+	return viewM(content, f, withGrown, false)
+}
+
+func viewM(content, f int, withGrown, withFlip bool) []metav1.Object {
 	objs := objects(content)
 	if withGrown {
 		objs = append(objs, grown())
+	}
+	if withFlip {
+		for i, o := range objs {
+			if o.GetName() == "a" {
+				objs[i] = flipped(content)
+			}
+		}
 	}
 	var out []metav1.Object
 	for _, o := range objs {
@@ -199,6 +237,28 @@ func (in *inst) check(r *vs.Result) []string {
 		}
 		return msgs
 	}
+	if c.flip {
+		// after Refilter #1 the parent updated a: Update if it stays, Delete if it leaves, Create if it enters
+		wantL := hx.ListString(viewM(c.content, c.seq[1], false, true))
+		was, is := false, hx.RefAccept(c.seq[1], flipped(c.content))
+		for _, o := range viewG(c.content, c.seq[1], false) {
+			if o.GetName() == "a" {
+				was = true
+			}
+		}
+		var wantE []string
+		switch {
+		case was && is:
+			wantE = []string{"update:" + hx.ObjString(flipped(c.content))}
+		case was:
+			wantE = []string{"delete:" + hx.ObjString(flipped(c.content))}
+		case is:
+			wantE = []string{"create:" + hx.ObjString(flipped(c.content))}
+		}
+		if in.growList != wantL || strings.Join(in.growEvents, " ") != strings.Join(wantE, " ") {
+			msgs = append(msgs, fmt.Sprintf("parent event after a refilter not filtered by the new filter | %s: after the parent updated a to %s the node holds %s (events %v), expected %s (events %v)", desc, hx.ObjString(flipped(c.content)), in.growList, in.growEvents, wantL, wantE))
+		}
+	}
 	if c.grow {
 		// after Refilter #1 the parent gained b: the node shows it iff its filter accepts it, announced by one Create
 		wantL := hx.ListString(viewG(c.content, c.seq[1], true))
@@ -213,7 +273,8 @@ func (in *inst) check(r *vs.Result) []string {
 	for i, st := range in.steps {
 		f := c.seq[i]
 		g := c.grow && i >= 2
-		view := func(content, f int) []metav1.Object { return viewG(content, f, g) }
+		fl := c.flip && i >= 2
+		view := func(content, f int) []metav1.Object { return viewM(content, f, g, fl) }
 		want := hx.ListString(view(c.content, f))
 		if st.list != want {
 			msgs = append(msgs, fmt.Sprintf("cache after refilter wrong | %s: after step %d (filter %s) the cache holds %s, expected %s", desc, i, hx.FilterNames[f], st.list, want))
@@ -319,7 +380,7 @@ func Property() runner.Property {
 			if tier == "thorough" {
 				basic = []int{0, 1, 2, 3, 4, 6, 8, 9}
 			}
-			for _, variant := range []string{"grow", "stateful"} {
+			for _, variant := range []string{"grow", "flip", "stateful"} {
 				contents := []int{1, 2}
 				if variant == "stateful" {
 					contents = []int{5, 8}
@@ -328,7 +389,7 @@ func Property() runner.Property {
 					for _, a := range basic {
 						for _, b := range basic {
 							for _, c3 := range basic {
-								c := cfg{content: content, seq: []int{a, b, c3}, grow: variant == "grow", stateful: variant == "stateful"}
+								c := cfg{content: content, seq: []int{a, b, c3}, grow: variant == "grow", flip: variant == "flip", stateful: variant == "stateful"}
 								out = append(out, runner.Sc{Scenario: explore.Scenario{
 									Name: fmt.Sprintf("c07/fsub-%s/content%d/%s", variant, content, strings.Join(names(c.seq), ">")), Mode: "S1",
 									Cfg: vs.Config{Timers: vs.TimersIdle, MaxSteps: 100000},
@@ -340,6 +401,25 @@ func Property() runner.Property {
 							}
 						}
 					}
+				}
+			}
+			// a caller-owned slice of ids spread into NSName for consecutive Refilter calls (the constructor must not keep or
+			// rewrite it): same slice twice = equal filter; slice changed in place = new filter
+			for _, content := range []int{5, 8} {
+				for _, c := range []cfg{
+					{content: content, seq: []int{0, 9, 9}, nsSlice: 1},
+					{content: content, seq: []int{1, 9, 9}, nsSlice: 1},
+					{content: content, seq: []int{0, 9, 1}, nsSlice: 2},
+				} {
+					c := c
+					out = append(out, runner.Sc{Scenario: explore.Scenario{
+						Name: fmt.Sprintf("c07/fsub-nsname-slice-reused%d/content%d/%s", c.nsSlice, content, strings.Join(names(c.seq), ">")), Mode: "S1",
+						Cfg: vs.Config{Timers: vs.TimersIdle, MaxSteps: 100000},
+						New: func() explore.Instance {
+							in := &inst{c: c}
+							return explore.Instance{Run: in.run, Check: in.check, Outcome: in.outcome}
+						},
+					}})
 				}
 			}
 			for content := 0; content < 9; content++ {
